@@ -1025,7 +1025,15 @@ func c11Gen(r *rand.Rand, tier string) any {
 			pth := p.path(sc)
 			v := p.Versions[r.IntN(len(p.Versions))].Version
 			var q string
-			switch r.IntN(13) {
+			switch r.IntN(14) {
+			case 13:
+				// the bare-major spelling of "latest": path@v1 (path@v0) names the same
+				// project as path
+				if strings.Contains(pth, "@") {
+					q = pth + "@latest"
+				} else {
+					q = pth + "@" + semver.Major(v)
+				}
 			case 11, 12:
 				q = pth + "@main"
 			case 0:
@@ -1318,6 +1326,16 @@ func c11Exec(scAny any, c *simcheck.Ctx) *simcheck.Violation {
 				}
 				if l := lowered(); l != "" {
 					return simcheck.V("upgrade-lowers", "%s: upgrading %s lowered %s", what, qpath, l)
+				}
+				if query == "" || query == "latest" {
+					// the get adds a requirement on the latest version; unless that is below the
+					// version in use (a lowering request) the build list holds at least that
+					// (path@v0 and path@v1 both mean "the latest v0 or v1 version": dawn cleans the
+					// path before it derives the major version to match)
+					want := sc.resolveQuery(qpath, query)
+					if want != "" && (!had || semver.Compare(want, ov) >= 0) && semver.Compare(nv, want) < 0 {
+						return simcheck.V("get-wrong-version", "%s: the latest version of %s is %s but the new build list has it at %s", what, qpath, want, nv)
+					}
 				}
 				if query == "upgrade" && had && semver.Compare(nv, ov) < 0 {
 					return simcheck.V("upgrade-lowers", "%s: an upgrade query lowered %s from %s to %s", what, qpath, ov, nv)
